@@ -505,6 +505,32 @@ pub fn check_builtin(c: &Builtin) -> Outcome {
     if !agree(&rm, &rf) {
         return fail(format!("`{m}` gives {} but `{f}` gives {} (r = {:?}, args = {:?})", rm.show(), rf.show(), c.recv, c.args));
     }
+    // the same two calls inside a macro body, with the iteration variable as receiver / as argument: still the same result
+    {
+        let (mm, mf) = if c.args.len() == 1 {
+            (format!("[a0].map(v, r.{}(v))", c.func), format!("[a0].map(v, {}(r, v))", c.func))
+        } else {
+            let rest = names.join(", ");
+            let sep = if rest.is_empty() { "" } else { ", " };
+            (format!("[r].map(v, v.{}({rest}))", c.func), format!("[r].map(v, {}(v{sep}{rest}))", c.func))
+        };
+        let (xm, xf) = match (run(&mm), run(&mf)) {
+            (Ok(a), Ok(b)) => (a, b),
+            (Err(e), _) | (_, Err(e)) => return fail(e),
+        };
+        if xm.is_panic() || xf.is_panic() {
+            return fail(format!("`{mm}` / `{mf}` with {vars:?}: {} / {}", xm.show(), xf.show()));
+        }
+        let lifted = |r: &R| -> R {
+            match r {
+                R::Val(v) => R::Val(V::List(vec![v.clone()])),
+                other => other.clone(),
+            }
+        };
+        if !agree(&xm, &xf) || !agree(&xm, &lifted(&rm)) {
+            return fail(format!("inside a macro body `{mm}` gives {} and `{mf}` gives {}, while outside `{m}` gives {} (r = {:?}, args = {:?})", xm.show(), xf.show(), rm.show(), c.recv, c.args));
+        }
+    }
     let nonstring = !matches!(c.recv, V::Str(_));
     pass_n(nonstring || !c.args.is_empty(), vec![if matches!(rm, R::Val(_)) { "built-in-both-styles-value" } else { "built-in-both-styles-error" }])
 }
@@ -565,7 +591,7 @@ fn gen_host_call(u: &mut Chooser) -> HostCall {
     if sig.params.contains(&P::Args) {
         args = (0..u.below(5)).map(|_| Arg::Val(gen_value(u, 1, ValOpts::ALL))).collect();
     }
-    let override_builtin = if matches!(sig.name, "k_v" | "t_v" | "t_s_s" | "va" | "k0" | "k_vv") && u.chance(1, 3) { Some(u.pick(&["size", "contains", "startsWith", "string", "max", "int", "duration", "getHours"]).to_string()) } else { None };
+    let override_builtin = if matches!(sig.name, "k_v" | "t_v" | "t_s_s" | "va" | "k0" | "k_vv") && u.chance(1, 3) { Some(u.pick(&["size", "contains", "startsWith", "endsWith", "matches", "string", "max", "int", "duration", "getHours"]).to_string()) } else { None };
     HostCall { sig: si, recv, args, override_builtin }
 }
 
@@ -630,8 +656,8 @@ pub fn run(r: &mut Runner) {
                 fixed.push(HostCall { sig: si, recv: None, args, override_builtin: None });
             }
         }
-        for b in ["size", "contains", "startsWith", "string", "max", "getHours"] {
-            for (name, args, recv) in [("k_v", vec![Arg::Val(V::s("abc"))], None), ("t_v", vec![], Some(V::s("abc"))), ("t_s_s", vec![Arg::Val(V::s("a"))], Some(V::s("abc"))), ("va", vec![Arg::Val(V::Int(1)), Arg::Val(V::Int(2))], None), ("k0", vec![], None)] {
+        for b in ["size", "contains", "startsWith", "endsWith", "matches", "string", "max", "getHours"] {
+            for (name, args, recv) in [("k_v", vec![Arg::Val(V::s("abc"))], None), ("t_v", vec![], Some(V::s("abc"))), ("t_s_s", vec![Arg::Val(V::s("a"))], Some(V::s("abc"))), ("va", vec![Arg::Val(V::Int(1)), Arg::Val(V::Int(2))], None), ("va", vec![Arg::Val(V::s("x")), Arg::Val(V::s("y")), Arg::Val(V::s("z"))], None), ("k_vv", vec![Arg::Val(V::s("foobar")), Arg::Val(V::s("foo"))], None), ("k0", vec![], None)] {
                 let si = all.iter().position(|s| s.name == name).unwrap();
                 fixed.push(HostCall { sig: si, recv, args, override_builtin: Some(b.to_string()) });
             }
